@@ -537,13 +537,8 @@ func genModule(r *hutil.Rng, idx int) *module {
 	hutil.Shuffle(r, perm)
 	for i := 0; i < n; i++ {
 		sn := snippets[perm[i]]
-		switch r.Below(7) {
-		case 0:
+		if r.Below(7) == 0 {
 			add("# plain comment")
-		case 1:
-			// a directive of the generator's own, naming rules that may or may not fire below
-			add("# regal ignore:" + hutil.Choice(r, []string{"prefer-snake-case", "use-assignment-operator", "no-foo-rule,prefer-snake-case", "constant-condition", "todo-comment"}))
-			m.OwnDirRows[len(m.Lines)] = true
 		}
 		for j, l := range sn {
 			if j == 0 && r.Below(9) == 0 {
@@ -557,6 +552,46 @@ func genModule(r *hutil.Rng, idx int) *module {
 		}
 	}
 	return m
+}
+
+// addOwnDirectives writes a few directives of the generator's own into the module, aimed at violations found
+// by a first lint: above the line, at its end, or naming a rule that does not fire there
+func addOwnDirectives(r *hutil.Rng, m *module, found []Viol) {
+	type ins struct {
+		row  int
+		text string
+		same bool
+	}
+	var todo []ins
+	used := map[int]bool{}
+	hutil.Shuffle(r, found)
+	for _, v := range found {
+		if len(todo) >= 2 || v.Row < 2 || used[v.Row] {
+			continue
+		}
+		used[v.Row] = true
+		name := v.Title
+		switch r.Below(4) {
+		case 0:
+			name = "todo-comment, " + v.Title
+		case 1:
+			name = "prefer-snake-case"
+		}
+		todo = append(todo, ins{v.Row, "# regal ignore:" + name, r.Below(3) == 0})
+	}
+	sort.Slice(todo, func(i, j int) bool { return todo[i].row > todo[j].row })
+	for _, t := range todo {
+		if t.same {
+			if !strings.Contains(m.Lines[t.row-1], "#") {
+				m.Lines[t.row-1] += " " + t.text
+			}
+			continue
+		}
+		ls := append([]string{}, m.Lines[:t.row-1]...)
+		ls = append(ls, indentOf(m.Lines[t.row-1])+t.text)
+		m.Lines = append(ls, m.Lines[t.row-1:]...)
+	}
+	m.OwnDirRows = ownDirRows(m.Lines)
 }
 
 // ---------------------------------------------------------------- directive spellings and placements
@@ -736,6 +771,20 @@ func batchLint(l linter.Linter, files map[string]string) (map[string][]Viol, rul
 }
 
 func e2ePerFile(e *env, r *hutil.Rng, out *hutil.Out, mods []*module, maxTargets int) {
+	// round 0: find out what fires where, then let the generator place directives of its own
+	files0 := map[string]string{}
+	for _, m := range mods {
+		files0[m.Name] = m.text()
+	}
+	res0, _, err := batchLint(e.perFileLinter(), files0)
+	if err != nil {
+		panic(fmt.Sprintf("round 0 lint failed: %v", err))
+	}
+	for i, m := range mods {
+		if i%3 != 2 { // every third module stays free of directives
+			addOwnDirectives(r, m, res0[m.Name])
+		}
+	}
 	// round 1: every module and its defused twin
 	files := map[string]string{}
 	for _, m := range mods {
@@ -767,6 +816,9 @@ func e2ePerFile(e *env, r *hutil.Rng, out *hutil.Out, mods []*module, maxTargets
 			targets = append(targets, v)
 		}
 		hutil.Shuffle(r, targets)
+		sort.SliceStable(targets, func(i, j int) bool { // a custom-rule violation first, when there is one
+			return targets[i].Title == "no-foo-rule" && targets[j].Title != "no-foo-rule"
+		})
 		if len(targets) > maxTargets {
 			targets = targets[:maxTargets]
 		}
